@@ -36,7 +36,7 @@ UNW = 8            # for(i < L), L <= 4, where clang did not unroll it
 def C(fn, real, tier='quick', **kw):
     kw.setdefault('unwind', UNW)
     kw.setdefault('backends', ('sat',))   # floats: SAT only
-    kw.setdefault('timeout', 900)
+    kw.setdefault('timeout', 3600 if tier == 'thorough' else 900)   # generous: the machine this runs on is heavily shared
     contracts.append((fn, real, tier, kw))
 
 
